@@ -127,7 +127,9 @@ impl<'a> Tokens<'a>
 				BaseToken::Semicolon => "Expected semicolon.",
 				BaseToken::StringLiteral => "Expected string literal.",
 				BaseToken::Identifier => "Expected identifier.",
-				_ => unreachable!(),
+				BaseToken::Colon => "Expected colon.",
+				BaseToken::Comma => "Expected comma.",
+				_ => "Unexpected token.",
 			};
 			Err(ParsingError::UnexpectedToken {
 				token: token_id,
